@@ -72,16 +72,31 @@ Definition outcome_verdict (u : run) : nat * string :=
   | inl w => if outcome_ok (u_handled u) (u_result u) w then (0, "") else (1, "outcome is none of the three legal final states")
   end.
 
+Definition serve_verdict (u : run) : nat * string :=
+  let e := u_entry u in
+  if String.eqb e "getinbox" || String.eqb e "getoutbox" || String.eqb e "handler" then
+    match first_fail sstate (serve_step e) s0 (u_trace u) 0 with
+    | inr pos => (1, match nth_error (u_trace u) pos with
+                     | Some (ESetHeader k _, _) => ("header " ++ k)%string
+                     | Some (EWriteHeader _, _) => "status"
+                     | Some (EWrite _, _) => "body"
+                     | _ => "?" end)
+    | inl _ => (0, "")
+    end
+  else (0, "").
+
 Definition judged := Eval vm_compute in
-  map (fun p => match p with (i, u) => (i, verdict_code (check_run u), lock_verdict u, gate_verdict u, outcome_verdict u) end)
+  map (fun p => match p with (i, u) => (i, verdict_code (check_run u), lock_verdict u, gate_verdict u, (outcome_verdict u, serve_verdict u)) end)
       (combine (seq 0 (length observed)) observed).
 Definition replay_bad := Eval vm_compute in map (fun x => match x with (i, v, _, _, _) => (i, v) end) (filter (fun x => match x with (_, (k, _, _), _, _, _) => negb (Nat.eqb k 0) end) judged).
 Definition lock_bad := Eval vm_compute in map (fun x => match x with (i, _, l, _, _) => (i, l) end) (filter (fun x => match x with (_, _, (k, _, _, _), _, _) => negb (Nat.eqb k 0) end) judged).
 Definition gate_bad := Eval vm_compute in map (fun x => match x with (i, _, _, g, _) => (i, g) end) (filter (fun x => match x with (_, _, _, (k, _), _) => negb (Nat.eqb k 0) end) judged).
-Definition outcome_bad := Eval vm_compute in map (fun x => match x with (i, _, _, _, o) => (i, o) end) (filter (fun x => match x with (_, _, _, _, (k, _)) => negb (Nat.eqb k 0) end) judged).
+Definition outcome_bad := Eval vm_compute in map (fun x => match x with (i, _, _, _, (o, _)) => (i, o) end) (filter (fun x => match x with (_, _, _, _, ((k, _), _)) => negb (Nat.eqb k 0) end) judged).
+Definition serve_bad := Eval vm_compute in map (fun x => match x with (i, _, _, _, (_, o)) => (i, o) end) (filter (fun x => match x with (_, _, _, _, (_, (k, _))) => negb (Nat.eqb k 0) end) judged).
 Definition n_observed := Eval vm_compute in length observed.
 Print replay_bad.
 Print lock_bad.
 Print gate_bad.
 Print outcome_bad.
+Print serve_bad.
 Print n_observed.
